@@ -32,6 +32,10 @@ class ParserState:
         self.trees = {}
         self.maps = {}
         self.langs = {}
+        # Files that took their language from an including file, and the
+        # (tree, map) pairs of such files for further languages.
+        self._inherited = set()
+        self._alternates = {}
         self.summarize_only = summarize_only
         self._path_cache = {}
 
@@ -62,8 +66,27 @@ class ParserState:
             self.maps[fn] = collections.defaultdict(set)
             if language:
                 self.langs[fn] = language
+                self._inherited.add(fn)
             else:
                 self.langs[fn] = FileLanguage(fn).get_language()
+        elif (
+            language
+            and fn in self._inherited
+            and language != self.langs[fn]
+            and (fn, language) not in self._alternates
+        ):
+            # A file that takes its language from the file including it is
+            # parsed once per language: which includer came first must not
+            # decide how the others see it.
+            parser = file_parser.FileParser(fn)
+            tree = parser.parse_file(
+                summarize_only=self.summarize_only,
+                language=language,
+            )
+            self._alternates[(fn, language)] = (
+                tree,
+                collections.defaultdict(set),
+            )
 
     def get_filenames(self):
         """
@@ -111,12 +134,18 @@ class ParserState:
                 setmap[platform] += node.num_lines
         return setmap
 
-    def associate(self, filename: str, platform: Platform):
+    def associate(self, filename: str, platform: Platform, language=None):
         """
         Update the association for the provided filename and platform.
+        `language` is the language of the including file, if any.
         """
         tree = self.get_tree(filename)
         association = self.get_map(filename)
+        fn = self._get_realpath(filename)
+        if (fn, language) in self._alternates:
+            tree, association = self._alternates[(fn, language)]
+        else:
+            language = self.langs.get(fn)
         branch_taken = []
 
         def associator(node: Node) -> Visit:
@@ -131,6 +160,7 @@ class ParserState:
                 platform=platform,
                 filename=self._get_realpath(filename),
                 state=self,
+                language=language,
             )
 
             # Ensure we only descend into one branch of an if/else/endif.
